@@ -1,6 +1,7 @@
 package verifbench
 
 import (
+	"os"
 	"fmt"
 	"net/http"
 	"strings"
@@ -76,6 +77,9 @@ func TestC13(t *testing.T) {
 		n := rapid.IntRange(0, 4).Draw(t, "extra_headers")
 		for i := 0; i < n; i++ {
 			kv := rapid.SampledFrom(strippedHeaderPool).Draw(t, "extra_header")
+			if (kv.K == "Connect-Protocol-Version" && formProtocol(c.Form) == ProtoConnect) || (kv.K == "Te" && c.Form == FormGRPC) {
+				continue // the form sends this single-valued header itself; a second field line makes the request malformed
+			}
 			if c.UseRaw {
 				c.RawHeader = append(c.RawHeader, kv)
 			} else {
@@ -149,12 +153,21 @@ func checkC13(sc *Scenario) *CheckResult {
 			// e.g. unclassifiable content-type is rejected before routing: only requests that reach
 			// the "no such endpoint" decision are delegated
 			res.class("unknown_not_delegated status=%d", out.Client.Status)
-			if out.Client.Status == 404 {
-				res.violate("not_delegated", "c13:not_delegated", "no endpoint matches %s %s, an unknown-endpoint handler is installed, yet the transcoder answered 404 itself", out.Sent.Method, out.Sent.Target)
+			if out.Client.Status != 415 {
+				// (415: a content-type that names no protocol at all is refused before any routing)
+				res.violate("not_delegated", "c13:not_delegated", "no endpoint matches %s %s, an unknown-endpoint handler is installed, yet the transcoder answered %d itself", out.Sent.Method, out.Sent.Target, out.Client.Status)
 			}
 			return res
 		}
 		res.class("passthrough_not_invoked status=%d", out.Client.Status)
+		if !stripped && !restTargetUnroutable(sc) && sc.Client.Fault == nil && !c.UseRaw {
+			// a request in a form, codec and compression the service accepts, without any header of another
+			// protocol that could make it ambiguous: it has to reach the handler
+			res.violate("not_passed", "c13:not_passed", "the service accepts %s %s as it is, yet no handler was invoked: HTTP %d", c.Form, out.Sent.Target, out.Client.Status)
+		}
+		if os.Getenv("VERIF_C13_DEBUG") != "" {
+			res.class("DBG status=%d form=%s method=%s ct=%q protos=%v http2=%v", out.Client.Status, c.Form, c.Method, headerOf(out.Sent.Header, "Content-Type"), sc.Config.Protocols, c.HTTP2)
+		}
 		return res
 	}
 	if kind == "passthrough" {
